@@ -183,7 +183,7 @@ Proof.
     assert (Hlen : length (a_sl a) = N.to_nat (a_mem a)) by (unfold nlen in *; lia).
     assert (Hlm : length (lmove (N.to_nat (idx + 1)) (N.to_nat idx) (N.to_nat (a_num a - idx)) (a_sl a))
                   = length (a_sl a)) by (apply lmove_length; lia).
-    splits; cbn [a_siz a_mem a_num a_sl].
+    unfold slot_ptr; splits; cbn [a_siz a_mem a_num a_sl].
     + constructor; cbn [a_siz a_mem a_num a_sl]; auto.
       * rewrite wadd_eq by lia. lia.
       * unfold nlen in *. rewrite lupd_length by lia. rewrite Hlm. assumption.
@@ -210,7 +210,7 @@ Proof.
     rewrite E1. unfold put. cbn [a_siz a_sl a_num a_mem].
     rewrite sl_write_slot by lia. cbn [bind]. eexists. eexists. split; [reflexivity|].
     assert (Hlen : length (a_sl a) = N.to_nat (a_mem a)) by (unfold nlen in *; lia).
-    splits; cbn [a_siz a_mem a_num a_sl].
+    unfold slot_ptr; splits; cbn [a_siz a_mem a_num a_sl].
     + constructor; cbn [a_siz a_mem a_num a_sl]; auto.
       * rewrite wadd_eq by lia. lia.
       * unfold nlen in *. rewrite lupd_length by lia. assumption.
